@@ -1,6 +1,67 @@
 //! Rules that run inside vek's own compilation (all bodies of the crate).
-use rustc_middle::ty::TyCtxt;
+//! Who-may-access inventory: every body with a place projection into a field of a consuming-iterator struct
+//! (`IntoIter`), type-resolved on the MIR, so derive expansions and private helpers are seen.
+use crate::terms::jstr;
+use rustc_middle::mir::visit::{PlaceContext, Visitor};
+use rustc_middle::mir::{Body, Location, Place, ProjectionElem};
+use rustc_middle::ty::{self, TyCtxt};
 
-pub fn run<'tcx>(_tcx: TyCtxt<'tcx>) -> String {
-    "{}".to_string()
+struct Acc<'a, 'tcx> {
+    tcx: TyCtxt<'tcx>,
+    body: &'a Body<'tcx>,
+    hits: Vec<(String, String, bool)>,
+}
+
+impl<'a, 'tcx> Visitor<'tcx> for Acc<'a, 'tcx> {
+    fn visit_place(&mut self, place: &Place<'tcx>, ctx: PlaceContext, _loc: Location) {
+        for (base, elem) in place.iter_projections() {
+            if let ProjectionElem::Field(fi, _) = elem {
+                let bt = base.ty(self.body, self.tcx).ty;
+                if let ty::Adt(a, _) = bt.kind() {
+                    if a.did().is_local() && self.tcx.item_name(a.did()).as_str() == "IntoIter" && a.is_struct() {
+                        let fname = a.non_enum_variant().fields[fi].name.to_string();
+                        // a projection that continues below the field in a mutating context, or ends at it
+                        self.hits.push((self.tcx.def_path(a.did()).to_string_no_crate_verbose(), fname, ctx.is_mutating_use()));
+                    }
+                }
+            }
+        }
+    }
+}
+
+pub fn run<'tcx>(tcx: TyCtxt<'tcx>) -> String {
+    let mut rows = vec![];
+    let mut bodies = 0usize;
+    let mut adts = std::collections::BTreeMap::new();
+    for ldid in tcx.hir_body_owners() {
+        let did = ldid.to_def_id();
+        if !matches!(tcx.def_kind(did), rustc_hir::def::DefKind::Fn | rustc_hir::def::DefKind::AssocFn | rustc_hir::def::DefKind::Closure) {
+            continue;
+        }
+        bodies += 1;
+        let body = tcx.optimized_mir(did);
+        let mut v = Acc { tcx, body, hits: vec![] };
+        v.visit_body(body);
+        v.hits.sort();
+        v.hits.dedup();
+        for (adt, field, m) in v.hits {
+            rows.push(format!("[{},{},{},{},{}]", jstr(&tcx.def_path(did).to_string_no_crate_verbose()), jstr(&tcx.def_path_str(did)), jstr(&adt), jstr(&field), m));
+        }
+    }
+    // the iterator structs themselves: field names, field visibility, field types
+    for ldid in tcx.hir_crate_items(()).definitions() {
+        let did = ldid.to_def_id();
+        if matches!(tcx.def_kind(did), rustc_hir::def::DefKind::Struct) && tcx.item_name(did).as_str() == "IntoIter" {
+            let a = tcx.adt_def(did);
+            let fs: Vec<String> = a
+                .non_enum_variant()
+                .fields
+                .iter()
+                .map(|f| format!("[{},{},{}]", jstr(f.name.as_str()), jstr(&format!("{:?}", f.vis)), jstr(&format!("{}", tcx.type_of(f.did).instantiate_identity().skip_norm_wip()))))
+                .collect();
+            adts.insert(tcx.def_path(did).to_string_no_crate_verbose(), format!("[{}]", fs.join(",")));
+        }
+    }
+    let adtj: Vec<String> = adts.iter().map(|(k, v)| format!("{}:{}", jstr(k), v)).collect();
+    format!("{{\"bodies\":{},\"intoiter_access\":[{}],\"intoiter_structs\":{{{}}}}}", bodies, rows.join(","), adtj.join(","))
 }
